@@ -9,6 +9,8 @@ import (
 	"os"
 	"path/filepath"
 	"strings"
+
+	"github.com/go-gts/gts/seqio"
 )
 
 func runStream(env *cliEnv, c J, emit func(J)) {
@@ -46,6 +48,18 @@ func runStream(env *cliEnv, c J, emit func(J)) {
 	ioutil.WriteFile(filepath.Join(env.inputs, inName), []byte(text), 0644)
 	defer os.Remove(filepath.Join(env.inputs, inName))
 	cmd := asStr(c["cmd"])
+	if sem, ok := c["sem"].(map[string]interface{}); ok && cmd == "annotate" {
+		// the feature table file: the features of sem.adds, written by the INSDC formatter
+		tbl := seqio.INSDCFormatter{Table: makeFeatures(asList(sem["adds"])), Prefix: "     ", Depth: 21}.String()
+		tblName := "tbl-" + id
+		ioutil.WriteFile(filepath.Join(env.inputs, tblName), []byte(tbl+"\n"), 0644)
+		defer os.Remove(filepath.Join(env.inputs, tblName))
+		for i, a := range args {
+			if a == "{table}" {
+				args[i] = "{file:" + tblName + "}"
+			}
+		}
+	}
 	res := env.run(dir, cmd, args, inName, "stdout", cmd != "length", 0)
 	ev["status"] = res.status
 	se := res.stderr
